@@ -1,0 +1,30 @@
+//go:build verif
+
+// Machine-checked contracts for package tiff (comment-only; read by /verif/bin/vcgo).
+// isSigAt/sigLEat/sigBEat/le32At/be32At are defined in /verif/specs/tiff.spec from TIFF 6.0 section 2.
+// pos/lim/data/fault are the ghost byte stream behind a reader (/verif/specs/deps.spec).
+package tiff
+
+// C12: the header search reports the FIRST signature, its byte order and first-IFD offset, whatever precedes it; a stream
+// without a signature (that has 28 more bytes after it) yields ErrNoExif; a buffered reader is left positioned at the header.
+// header.TiffHeaderOffset is a uint32: the offset clauses are stated for streams shorter than 4 GiB from the start position.
+
+//@ func ScanTiffHeader
+//@   props C12 C01 C02
+//@   entry
+//@   requires r != nil
+//@   ghost o int = discarded
+//@   ensures [C12] err != nil ==> err == meta.ErrNoExif
+//@   ensures [C12] err == nil ==> header.FirstIfd == ifds.IFD0 && header.ExifLength == 0
+//@   ensures [C12] err == nil ==> 0 <= o && header.TiffHeaderOffset == uint32(o) && old(pos(r)) + o + 32 <= lim(r)
+//@   ensures [C12] err == nil ==> isSigAt(r, old(pos(r)) + o)
+//@   ensures [C12] err == nil ==> forall j int :: 0 <= j && j < o ==> !isSigAt(r, old(pos(r)) + j)
+//@   ensures [C12] err == nil && sigLEat(r, old(pos(r)) + o) ==> header.ByteOrder == utils.LittleEndian && header.FirstIfdOffset == le32At(r, old(pos(r)) + o + 4)
+//@   ensures [C12] err == nil && sigBEat(r, old(pos(r)) + o) ==> header.ByteOrder == utils.BigEndian && header.FirstIfdOffset == be32At(r, old(pos(r)) + o + 4)
+//@   ensures [C12] err == nil && is(r, "*bufio.Reader") ==> pos(r) == old(pos(r)) + o
+//@   ensures [C12] err != nil && is(r, "*bufio.Reader") && !fault(r) && bsize(r) >= 32 ==> forall j int :: 0 <= j && j <= lim(r) && old(pos(r)) + j + 32 <= lim(r) ==> !isSigAt(r, old(pos(r)) + j)
+//@   loop 0 invariant 0 <= discarded && sid(br) == sid(r) && lim(br) == lim(r)
+//@   loop 0 invariant pos(br) == old(pos(r)) + discarded
+//@   loop 0 invariant is(r, "*bufio.Reader") ==> br == ref(r)
+//@   loop 0 invariant forall j int :: 0 <= j && j < discarded ==> !isSigAt(br, old(pos(r)) + j)
+//@   loop 0 decreases lim(br) - pos(br)
